@@ -98,7 +98,7 @@ func C03(c *Ctx) {
 	r.Rule("C03-h", "no speculative errors in the front-end grammar (errors returned by actions are never rolled back): (a) a rule referenced by the operand of an & or ! predicate from which an error-returning action is reachable is listed with the reason why the same text is read again by the same rule; (b) an alternative of an ordered choice that evaluates, at its first position, a rule whose action can return an error and can still fail afterwards starts with an & guard, unless no later alternative can start with the same token or the later alternative evaluates the same rule there")
 	r.Rule("C03-i", "Go strings and rune literals inside code blocks are skipped as units whatever escapes they contain: in each quoted alternative of rule CodeStringLiteral the repetition between the quotes has a negated class that does not exclude the backslash, or an alternative that takes a backslash together with the character after it (otherwise \"}\\n\" falls back to character-by-character reading and its brace is counted)")
 	r.Rule("C03-j", "decorations of grammar text are removed once: no call of strings.Trim / TrimLeft / TrimRight (which remove every occurrence of every character of a cut set) with a constant non-blank set in the front-end packages, except the listed ones whose operand cannot repeat the character - strings.TrimLeft(raw, \"^\") on the class text [^^a] removes the inversion marker and the literal caret behind it")
-	r.Rule("C03-k", "CharClassMatcher.parse, extraction loop: a dash opens a range exactly on the paths where the member is '-', a plain member precedes it and a member follows it in the list being walked (the decoded member list): `[a-]`, `[-a]`, `[\\pL_-]` keep the dash as a plain member")
+	r.Rule("C03-k", "CharClassMatcher.parse, extraction loop: a dash opens a range exactly on the paths where the member is '-', a plain member precedes it and a member follows it in the list being walked (the decoded member list): `[a-]`, `[-a]`, `[\\pL_-]` keep the dash as a plain member; the path also consults a local the loop updates where it appends to the range list (just-closed-a-range flag): a dash directly after a range is a plain member, it does not take the member before that range as a low end")
 	r.Rule("C03-g", "any layout ends a rule: the alternative of EOS that ends a rule at a line end can pass over a comment that spans lines (it reaches MultiLineComment), since a line break inside a comment is a line break")
 	r.Rule("C03-e", "CharClassMatcher.parse keeps every member: each iteration of the reading loop that obtained a rune appends to chars or UnicodeClasses, each iteration of the extraction loop appends to Chars or Ranges")
 	r.Rule("C03-c", "RuleDefOp = {\"=\", \"<-\", U+2190, U+27F5}; SingleCharEscape ⊆ {a,b,f,n,r,t,v,\\}; CharClassMatcher.parse consumes x→2, u→4, U→8, octal→2 further digits, equal to the digit references of HexEscape / ShortUnicodeEscape / LongUnicodeEscape / OctalEscape")
